@@ -33,6 +33,13 @@
 static unsigned long pre[NG], post[NG]; static int ng_total;
 static char *prog[MAXTH]; static int nprog; static int gbase[MAXTH];
 static char tlsname[MAXTH][16]; static int hdepth[MAXTH]; static int insec[MAXTH];
+#ifdef FLAVOR_BP
+/* bp: the reader state of a registered thread never moves (C15): remember the slot the thread was first seen with */
+static void *myslot[MAXTH]; static int exiting[MAXTH];     /* during thread exit a handler may legitimately register the thread anew */
+static void slot_check(int t){ void *p=URCU_TLS(urcu_bp_reader); if(!p||exiting[t]) return; if(!myslot[t]) myslot[t]=p; else if(myslot[t]!=p){ vs_note("BUG the reader slot of thread %d moved from %p to %p (registered twice)",t,myslot[t],p); myslot[t]=p; } }
+#else
+#define slot_check(t) do{}while(0)
+#endif
 static void litmus(int t, int order, const char *who){
 	unsigned long vpost[NG], vpre[NG];
 	if(order){ for(int i=0;i<ng_total;i++) vpost[i]=CMM_LOAD_SHARED(post[i]); for(int i=0;i<ng_total;i++) vpre[i]=CMM_LOAD_SHARED(pre[i]); }
@@ -41,7 +48,7 @@ static void litmus(int t, int order, const char *who){
 static void handler(int t){
 	unsigned long w0=WORD(); int o0=ONGOING(); unsigned long w0b=WORD();    /* bp: ONGOING() may register the thread; the word is 0 either way */
 	hdepth[t]++;
-	vs_call("lock",100+hdepth[t]); RL(); vs_ret("lock",0);
+	vs_call("lock",100+hdepth[t]); RL(); slot_check(t); vs_ret("lock",0);
 	litmus(t, !(hdepth[t]&1), "handler");   /* depth 1: pre first, then post - the order that exposes a grace period that did not wait for this section */
 	vs_call("unlock",100+hdepth[t]); RU(); vs_ret("unlock",0);
 	hdepth[t]--;
@@ -58,7 +65,7 @@ static void body(int t){
 #endif
 	for(char *p=prog[t]; *p; p++){
 		switch(*p){
-		case '(': vs_call("lock",depth); RL(); vs_ret("lock",0); depth++; break;
+		case '(': vs_call("lock",depth); RL(); slot_check(t); vs_ret("lock",0); depth++; break;
 		case ')': vs_call("unlock",depth); RU(); vs_ret("unlock",0); depth--; break;
 		case 'r': if(depth) litmus(t,1,"reader"); break;
 		case 'q': if(depth) litmus(t,0,"reader"); break;
@@ -68,7 +75,9 @@ static void body(int t){
 #ifdef FLAVOR_BP
 	/* thread exit: what the pthread key destructor does (it runs again while the key has a value: a handler may have re-registered the thread).  Signals stay
 	   enabled, as in real life, except inside the critical section of init_lock in urcu_bp_exit() (see main) */
+	exiting[t]=1;
 	for(int it=0; it<4 && URCU_TLS(urcu_bp_reader); it++){ vs_call("unregister",0); struct rcu_reader *r=URCU_TLS(urcu_bp_reader); pthread_setspecific(urcu_bp_key,NULL); urcu_bp_unregister(r); vs_ret("unregister",0); }
+	myslot[t]=0;
 #else
 	vs_call("unregister",0); rcu_unregister_thread(); vs_ret("unregister",0);
 #endif
@@ -93,4 +102,8 @@ int main(int argc,char**argv){
 	vs_set_signal_handler(handler);
 	for(int i=0;i<nprog;i++) vs_spawn(body);
 	vs_run(argv[2]);
+#ifdef FLAVOR_BP
+	{ int live=0; struct registry_chunk *c; cds_list_for_each_entry(c,&registry_arena.chunk_list,node) for(size_t i=0;i<c->capacity;i++) live+=c->readers[i].alloc?1:0;
+	  printf("- bp live slots %d\n",live); }      /* every thread has exited: no slot may still be allocated */
+#endif
 	fflush(stdout); _exit(0); }
